@@ -19,7 +19,7 @@ import numpy as np
 FAMILIES = ["grid", "corenet", "interacting", "spatial", "resistive", "rp",
             "rp_lines", "crp_jrp", "visibility", "surrogates", "funcnet",
             "climate", "rp_twins", "isrn", "big_layouts", "funcnet_knn",
-            "resistive_large", "resized"]
+            "resistive_large", "resized", "corenet_hub"]
 
 META = dict(
     flavour="asanrec",
@@ -76,6 +76,9 @@ META["rule"] += (
 
 META["rule"] += (
     " " + "Added after the seventh round: ResNetwork with a resized adjacency / node index outside the network; family 'resized' (six more subclasses, every parameter-free method); cross plots of trajectories with different numbers of components; symmetrize_by_absmax with matrices that do not match the object.")
+
+META["rule"] += (
+    " " + "Added after the eighth round: family 'corenet_hub' (stars of 232 / 300 nodes, cliquishness orders 3-5); resized objects have been asked before the resize (and are asked again after it); visibility timings two samples short / three long.")
 
 _state = {"off": 0, "path": None}
 
@@ -307,6 +310,23 @@ def fam_corenet(ctx):
                        lambda mk=mk: mk().arenas_betweenness())
 
 
+def fam_corenet_hub(ctx):
+    """Degrees whose products leave 32 bits (cliquishness normalisation)."""
+    from pyunicorn.core import Network
+    r = ctx.rng("corenet-hub")
+    for n in (232, 300):
+        A = np.zeros((n, n), dtype=np.int8)
+        A[0, 1:] = A[1:, 0] = 1
+        for _ in range(40):
+            i, j = (int(v) for v in r.integers(1, n, 2))
+            if i != j:
+                A[i, j] = A[j, i] = 1
+        for order in (3, 4, 5):
+            yield (f"Network.local_cliquishness|order={order},hub,n={n}",
+                   lambda A=A, o=order: Network(
+                       adjacency=A, silence_level=3).local_cliquishness(o))
+
+
 def fam_interacting(ctx):
     from pyunicorn.core import InteractingNetworks as IN
     r = ctx.rng("inter")
@@ -485,6 +505,14 @@ def fam_resistive(ctx):
                 def t(R=R, n=n, grow=grow):
                     net = ResNetwork(R, silence_level=3)
                     m = n + grow
+                    if grow > 1 or n % 2:
+                        # (an object that has been in use before)
+                        try:
+                            net.vertex_current_flow_betweenness(0)
+                            net.edge_current_flow_betweenness()
+                            net.effective_resistance(0, 1)
+                        except Exception:  # noqa
+                            pass
                     net.adjacency = np.ones((m, m), dtype=int) - np.eye(
                         m, dtype=int)
                     out = []
@@ -609,10 +637,16 @@ def fam_resized(ctx):
                     warnings.simplefilter("ignore")
                     o = mk()
                     m = int(o.N) + grow
-                    o.adjacency = np.ones((m, m), dtype=int) - np.eye(
-                        m, dtype=int)
                     done = 0
-                    for name in sorted(dir(type(o))):
+                    for name in ([None] + sorted(dir(type(o)))) * 2:
+                        if name is None:
+                            # (first round: the object as built, so that
+                            #  whatever it memoises is there; then the
+                            #  adjacency is replaced and all is asked again)
+                            if done:
+                                o.adjacency = np.ones((m, m), dtype=int) - \
+                                    np.eye(m, dtype=int)
+                            continue
                         if name.startswith("_") or \
                                 any(name.startswith(d) for d in deny):
                             continue
@@ -632,6 +666,8 @@ def fam_resized(ctx):
                         except Exception:  # noqa: a refusal is fine
                             pass
                         done += 1
+                    if o.N != m:
+                        raise RuntimeError("adjacency was not replaced")
                     return done
             yield f"{cname}.<all queries>|adjacency-resized{grow:+d}", t
 
@@ -866,12 +902,13 @@ def fam_visibility(ctx):
             [30] if ctx.thorough else []), dims=(1,)):
         for hz in (False, True):
             for mv in (False, True):
-                for tm in ("none", "arange", "float", "short"):
+                for tm in ("none", "arange", "float", "short", "long"):
                     def t(a=a, hz=hz, mv=mv, tm=tm):
                         n = len(a)
                         timings = {"none": None, "arange": np.arange(n),
                                    "float": np.cumsum(np.ones(n) * .5),
-                                   "short": np.arange(n)}[tm]
+                                   "short": np.arange(max(n - 2, 0)),
+                                   "long": np.arange(n + 3)}[tm]
                         g = VG(a, timings=timings, missing_values=mv,
                                horizontal=hz, silence_level=3)
                         return (g.retarded_local_clustering(),
@@ -1346,7 +1383,7 @@ def fam_big_layouts(ctx):
 
 
 FAM_FUNCS = dict(big_layouts=fam_big_layouts,
-                 resized=fam_resized,
+                 resized=fam_resized, corenet_hub=fam_corenet_hub,
                  resistive_large=fam_resistive_large,
                  funcnet_knn=lambda ctx: fam_funcnet(ctx, part=1),
                  grid=fam_grid, corenet=fam_corenet,
